@@ -238,8 +238,11 @@ bool GetUintEnvironmentVariable(const char *env_var_name, std::uint32_t &value)
                                                     << raw_value << ">, defaulting to "
                                                     << kDefaultValue);
   }
-  else if (actual_end != end || std::numeric_limits<std::uint32_t>::max() < temp)
+  else if (actual_end != end || std::numeric_limits<std::uint32_t>::max() < temp ||
+           raw_value.find('-') != std::string::npos)
   {
+    // Note: strtoull() accepts a minus sign and negates the value modulo 2^64,
+    // so "-18446744073709551615" would otherwise be read as 1.
     OTEL_INTERNAL_LOG_WARN("Environment variable <" << env_var_name << "> has an invalid value <"
                                                     << raw_value << ">, defaulting to "
                                                     << kDefaultValue);
